@@ -23,12 +23,22 @@
                                          -> freq `<low|~> <high|~>`, jump `<0|1> <k|~>`,
                                             ds `<P|C> (<value> <min|~> <max|~>){3} <horizontal|~> <vertical|~>` | `E`
         `hx <freq|jump|ds> <value as above>`   the matching to_xml -> `<tree>` (a `parent` element holding the output)
+        `hp <poff|grange1|grange2|prange|matrix1|matrix2> <tree>`   round 4: positionOffset, interaction ranges (the children
+                                         xpath() finds in the tree), the `matrix` children of the tree
+                                         -> poff `~` | `P a e d` | `C x y z`; grange `~` | `<gain|~> <gain|~>` (gain = `L k` | `D k`);
+                                            prange `~` | `<P|C> (<min|~> <max|~>){3}`; matrix `M n <coefficient>*` | `~`
+                                            with coefficient = `<ref> <gain|~> <phase|~> <delay|~> <gainVar|~> <phaseVar|~> <delayVar|~>`
+        `hx poff|grange|prange|screen|coeff1|coeff2|matrix1|matrix2 <value>`   the matching to_xml -> `<tree>`
+                                         (screen / coeff: the element itself; the others: a `parent` holding the output)
+        `rt <class> <1|2> <tree>`       class level: parse the element with the concrete parser of the class for the
+                                         version, construct, and write it again -> `<tree>` | `E`
    out: `bad-op` for a malformed line. -/
 import Earverif.Model.TimeFormat
 import Earverif.Model.GenIds
 import Earverif.Model.Chna
 import Earverif.Model.XmlLeaf
 import Earverif.Model.XmlCustom
+import Earverif.Model.XmlElements
 import Earverif.Driver.Util
 open Earverif.Driver Earverif.Digits
 
@@ -395,6 +405,170 @@ def answerH (ws : List String) : String :=
 
 end Custom
 
+
+/-! ### round 4: remaining handlers and the class-level parsers -/
+section Classes
+open Earverif.XmlCodec Earverif.XmlCustom Earverif.XmlBlocks Earverif.XmlElements
+
+def showGainV : Option Gain → String
+  | none => "~"
+  | some (.linear k) => s!"L:{k}"
+  | some (.dB k) => s!"D:{k}"
+
+def showCoeff (c : Coefficient) : String :=
+  s!"{encStr c.inputChannelFormat} {showOptInt c.gain} {showOptInt c.phase} {showOptInt c.delay} {showOptStr c.gainVar} {showOptStr c.phaseVar} {showOptStr c.delayVar}"
+
+def coeff? : List String → Option (Coefficient × List String)
+  | r :: g :: p :: d :: gv :: pv :: dv :: rest => do
+    some (⟨← decStr? r, ← optInt? g, ← optInt? p, ← optInt? d, ← optStr? gv, ← optStr? pv, ← optStr? dv⟩, rest)
+  | _ => none
+
+def coeffs? : Nat → List String → List Coefficient → Option (List Coefficient)
+  | 0, [], acc => some acc.reverse
+  | 0, _, _ => none
+  | n + 1, ws, acc => do
+    let (c, rest) ← coeff? ws
+    coeffs? n rest (c :: acc)
+
+def irange? : List String → Option (IRange × List String)
+  | a :: b :: rest => do some (⟨← optInt? a, ← optInt? b⟩, rest)
+  | _ => none
+
+def showIRange (r : IRange) : String := s!"{showOptInt r.min} {showOptInt r.max}"
+
+/-- the concrete parser, constructor defaults and element name of a class -/
+def classOf (cls : String) (v2 : Bool) : Option (List (Property XV) × Obj XV × String) :=
+  if cls = "audioProgramme" then some (programmePs v2, programmeDefaults, cls)
+  else if cls = "audioContent" then some (contentPs v2, contentDefaults, cls)
+  else if cls = "audioObject" then some (objectPs v2, objectDefaults, cls)
+  else if cls = "audioPackFormat" then some (packPs, packDefaults, cls)
+  else if cls = "audioChannelFormat" then some (channelPs v2, channelDefaults, cls)
+  else if cls = "audioStreamFormat" then some (streamPs, streamDefaults, cls)
+  else if cls = "audioTrackFormat" then some (trackPs, noneDefaults, cls)
+  else if cls = "audioTrackUID" then some (trackUIDPs v2, noneDefaults, cls)
+  else if cls = "loudnessMetadata" then some (loudnessPs, noneDefaults, cls)
+  else if cls = "audioObjectInteraction" then some (interactionPs v2, noneDefaults, cls)
+  else if cls = "alternativeValueSet" then some (avsPs v2, noneDefaults, cls)
+  else if cls = "coefficient" then some (coeffPs v2, noneDefaults, cls)
+  else if cls = "audioProgrammeReferenceScreen" then some (screenPs, noneDefaults, cls)
+  else if cls = "audioBlockFormat:Objects" then some (objPs v2, objectsDefaults, "audioBlockFormat")
+  else if cls = "audioBlockFormat:DirectSpeakers" then some (dsPs v2, dsDefaults, "audioBlockFormat")
+  else if cls = "audioBlockFormat:HOA" then some (hoaPs v2, blockDefaults, "audioBlockFormat")
+  else if cls = "audioBlockFormat:Binaural" then some (binauralPs v2, blockDefaults, "audioBlockFormat")
+  else if cls = "audioBlockFormat:Matrix" then some (matrixPs v2, matrixDefaults, "audioBlockFormat")
+  else none
+
+/-- the class constructor on the parsed keyword arguments, for the classes that have one in the model (the
+nested ones); `none` = the constructor raises / the value is not on the grid -/
+def construct (cls : String) (o : Obj XV) : Option (Obj XV) :=
+  if cls = "loudnessMetadata" then (Loudness.ofObj o).map (·.toObj)
+  else if cls = "audioObjectInteraction" then (Interaction.ofObj o).map (·.toObj)
+  else if cls = "alternativeValueSet" then (AVS.ofObj o).map (·.toObj)
+  else if cls = "coefficient" then (Coefficient.ofObj o).map (·.toObj)
+  else if cls = "audioProgrammeReferenceScreen" then (Screen.ofObj o).map (·.toObj)
+  else if cls = "audioBlockFormat:Objects" then (ObjectsBlock.ofObj o).map (·.toObj)
+  else if cls = "audioBlockFormat:DirectSpeakers" then (DirectSpeakersBlock.ofObj o).map (·.toObj)
+  else if cls = "audioBlockFormat:HOA" then (HoaBlock.ofObj o).map (·.toObj)
+  else if cls = "audioBlockFormat:Binaural" then (BinauralBlock.ofObj o).map (·.toObj)
+  else if cls = "audioBlockFormat:Matrix" then (MatrixBlock.ofObj o).map (·.toObj)
+  else some o
+
+def answerC (ws : List String) : String :=
+  match ws with
+  | "rt" :: cls :: ver :: rest =>
+    match bool? (if ver = "2" then "1" else if ver = "1" then "0" else ver), tree? rest with
+    | some v2, some (e, []) =>
+      match classOf cls v2 with
+      | some (ps, cd, name) =>
+        match (parse ps cd e).bind (construct cls) with
+        | some o => showTree (toXml ps name o)
+        | none => "E"
+      | none => "bad-op"
+    | _, _ => "bad-op"
+  | "hp" :: which :: rest =>
+    match tree? rest with
+    | some (e, []) =>
+      if which = "poff" then
+        match parsePositionOffset (xpathChildren e "positionOffset") with
+        | some none => "~"
+        | some (some (.polar a b c)) => s!"P {a} {b} {c}"
+        | some (some (.cartesian a b c)) => s!"C {a} {b} {c}"
+        | none => "E"
+      else if which = "grange1" ∨ which = "grange2" then
+        match parseGainRange (which == "grange2") (xpathChildren e "gainInteractionRange") with
+        | some none => "~"
+        | some (some r) => s!"{showGainV r.min} {showGainV r.max}"
+        | none => "E"
+      else if which = "prange" then
+        match parsePosRange (xpathChildren e "positionInteractionRange") with
+        | some none => "~"
+        | some (some (.polar a b c)) => s!"P {showIRange a} {showIRange b} {showIRange c}"
+        | some (some (.cartesian a b c)) => s!"C {showIRange a} {showIRange b} {showIRange c}"
+        | none => "E"
+      else if which = "matrix1" ∨ which = "matrix2" then
+        let impl := matrixImpl (which == "matrix2")
+        match (e.children.filter fun c => matchesName c.tag "matrix").foldlM impl.handle Kw.empty with
+        | some kw =>
+          match kw "matrix" with
+          | some (.one (.coeffs cs)) => " ".intercalate (s!"M {cs.length}" :: cs.map showCoeff)
+          | _ => "~"
+        | none => "E"
+      else "bad-op"
+    | _ => "bad-op"
+  | ["hx", "poff", "~"] => parentOf (positionOffsetToXml none)
+  | ["hx", "poff", kind, a, b, c] =>
+    match a.toInt?, b.toInt?, c.toInt? with
+    | some a, some b, some c =>
+      if kind = "P" then parentOf (positionOffsetToXml (some (.polar a b c)))
+      else if kind = "C" then parentOf (positionOffsetToXml (some (.cartesian a b c)))
+      else "bad-op"
+    | _, _, _ => "bad-op"
+  | ["hx", "grange", "~"] => parentOf (gainRangeToXml none)
+  | ["hx", "grange", mn, mx] =>
+    match optInt? mn, optInt? mx with
+    | some mn, some mx => parentOf (gainRangeToXml (some ⟨mn.map .linear, mx.map .linear⟩))
+    | _, _ => "bad-op"
+  | ["hx", "prange", "~"] => parentOf (posRangeToXml none)
+  | "hx" :: "prange" :: kind :: rest =>
+    match (do
+      let (a, r) ← irange? rest
+      let (b, r) ← irange? r
+      let (c, r) ← irange? r
+      if r.isEmpty then some (a, b, c) else none) with
+    | some (a, b, c) =>
+      if kind = "P" then parentOf (posRangeToXml (some (.polar a b c)))
+      else if kind = "C" then parentOf (posRangeToXml (some (.cartesian a b c)))
+      else "bad-op"
+    | none => "bad-op"
+  | ["hx", "screen", kind, ar, a, b, c, w] =>
+    match ar.toInt?, a.toInt?, b.toInt?, c.toInt?, w.toInt? with
+    | some ar, some a, some b, some c, some w =>
+      if kind = "P" then showTree (toXml screenPs "audioProgrammeReferenceScreen" (Screen.toObj ⟨ar, .polar a b c, w⟩))
+      else if kind = "C" then
+        showTree (toXml screenPs "audioProgrammeReferenceScreen" (Screen.toObj ⟨ar, .cartesian a b c, w⟩))
+      else "bad-op"
+    | _, _, _, _, _ => "bad-op"
+  | "hx" :: which :: rest =>
+    if which = "coeff1" ∨ which = "coeff2" then
+      match coeff? rest with
+      | some (c, []) => showTree (toXml (coeffPs (which == "coeff2")) "coefficient" c.toObj)
+      | _ => "bad-op"
+    else if which = "matrix1" ∨ which = "matrix2" then
+      match rest with
+      | n :: rest =>
+        match n.toNat? with
+        | some n =>
+          match coeffs? n rest [] with
+          | some cs =>
+            parentOf ((matrixImpl (which == "matrix2")).childrenOut (fun a => if a = "matrix" then .one (.coeffs cs) else .one noneLeaf))
+          | none => "bad-op"
+        | none => "bad-op"
+      | _ => "bad-op"
+    else "bad-op"
+  | _ => "bad-op"
+
+end Classes
+
 def answer (line : String) : String :=
   match words line with
   | "tp" :: ws =>
@@ -417,8 +591,14 @@ def answer (line : String) : String :=
       if d = 0 ∨ 1 < af then "bad-op" else
       showUnparsed (Earverif.TimeFormat.unparseTime (af == 1) (.frac n d))
     | _, _, _ => "bad-op"
-  | "hp" :: rest => answerH ("hp" :: rest)
-  | "hx" :: rest => answerH ("hx" :: rest)
+  | "rt" :: rest => answerC ("rt" :: rest)
+  | "hp" :: which :: rest =>
+    if ["poff", "grange1", "grange2", "prange", "matrix1", "matrix2"].contains which then answerC ("hp" :: which :: rest)
+    else answerH ("hp" :: which :: rest)
+  | "hx" :: which :: rest =>
+    if ["poff", "grange", "prange", "screen", "coeff1", "coeff2", "matrix1", "matrix2"].contains which then
+      answerC ("hx" :: which :: rest)
+    else answerH ("hx" :: which :: rest)
   | "xp" :: _ => answerX line
   | "xt" :: _ => answerX line
   | "gi" :: _ => answerGi ((line.dropWhile (· == ' ')).drop 2).toString
